@@ -64,6 +64,14 @@ def prior_activity(kind):
                      "init": [["rel", 1.0, 5, "x1"], ["ev", 2.0, 5, "x2"], ["ev", 2.0, 5, "x4"]],
                      "handlers": {"x1": [["rel", 1.5, 5, "x3"], ["ev", 3.0, 5, "x5"]]}, "initial": [["now", 5, "x9"]]}, "unrelated")
         h.cmd("initialize")
+        # the unrelated model has statistics of every kind that listen to this process's 'foreign' event type
+        from pydsol.core import statistics as S
+        from pydsol.core.pubsub import EventProducer
+        from vlib.simharness import foreign_type
+        up = EventProducer()
+        for n, cls in enumerate((S.SimCounter, S.SimTally, S.SimWeightedTally, S.SimPersistent)):
+            cls(f"u{n}", "unrelated", h.sim).listen_to(up, foreign_type())
+        cls = S.SimTally("u9", "unrelated", h.sim, producer=up, event_type=foreign_type())
         h.cmd("start")
         h.wait_quiescent(20)
         h.cleanup()
